@@ -126,6 +126,8 @@ func (c *Ctx) EntrySet(name string) ([]*ssa.Function, []string) {
 	case "GRAPH":
 		add("graph.InDependencyOrder", "graph.CheckCycle")
 		fns = append(fns, p.ExportedFuncs("graph")...)
+	case "CONSISTENCY":
+		add("loader.checkConsistency")
 	case "DOTENV":
 		fns = append(fns, p.ExportedFuncs("dotenv")...)
 	case "TEMPLATE":
